@@ -195,6 +195,12 @@ theorem deliver_grow (inp : RunInput) (pst : RS) (p : Name) (nd : Node) : Grow n
   · exact Grow.refl _
 
 
+theorem deliverF_grow (inp : RunInput) (ex : Bool) (pst : RS) (p : Name) (nd : Node) :
+    Grow nd (deliverF inp ex pst p nd) := by
+  unfold deliverF; split
+  · exact addDeps_grow _ _
+  · exact Grow.refl _
+
 theorem SameDeps.refl (a : Node) : SameDeps a a := ⟨rfl, rfl, rfl, rfl⟩
 theorem SameDeps.trans {a b c : Node} (h1 : SameDeps a b) (h2 : SameDeps b c) : SameDeps a c :=
   ⟨h2.1.trans h1.1, h2.2.1.trans h1.2.1, h2.2.2.1.trans h1.2.2.1, h2.2.2.2.trans h1.2.2.2⟩
@@ -235,13 +241,16 @@ theorem absorbDone_spec (inp : RunInput) (s : Sys) (isCalc : Bool) : ∀ (ds : L
         · exact cl d hd' hfin
       | true =>
         simp only [if_true]
-        obtain ⟨g, _, cl⟩ := ih (deliver inp (stOf s a) a (parentStatus (stOf s a) a nd))
-        have g0 := (parentStatus_grow (stOf s a) a nd).trans (deliver_grow inp (stOf s a) a _)
+        obtain ⟨g, _, cl⟩ := ih (deliverF inp (started s a) (stOf s a) a
+          (deliver inp (stOf s a) a (parentStatus (stOf s a) a nd)))
+        have g0 := ((parentStatus_grow (stOf s a) a nd).trans (deliver_grow inp (stOf s a) a _)).trans
+          (deliverF_grow inp (started s a) (stOf s a) a _)
         refine ⟨g0.trans g, (fun e => by cases e), ?_⟩
         intro d hd hfin
         rcases List.mem_cons.mp hd with rfl | hd'
         · have := parentStatus_cls (stOf s d) d nd
-          have g1 := deliver_grow inp (stOf s d) d (parentStatus (stOf s d) d nd)
+          have g1 := (deliver_grow inp (stOf s d) d (parentStatus (stOf s d) d nd)).trans
+            (deliverF_grow inp (started s d) (stOf s d) d _)
           exact ⟨fun e => g.bad _ (g1.bad _ (this.1 e)), fun e => g.ign _ (g1.ign _ (this.2 e))⟩
         · exact cl d hd' hfin
 
@@ -354,6 +363,103 @@ theorem wokenNode_upd (inp : RunInput) (pst : RS) (p : Name) (w : Node) : Upd ps
       · right; exact ⟨e, hc.1, hc.2⟩
       · left; simp [List.mem_filter, hd, e]
     · intro d hd; simp only [List.mem_filter] at hd; exact hd.1
+
+theorem Upd.grow {pst : RS} {p : Name} {a b c : Node} (hu : Upd pst p a b) (g : Grow b c)
+    (hs : p ∉ a.waitRunCalc → c = b) : Upd pst p a c where
+  pc := g.pc.trans hu.pc
+  status := g.status.trans hu.status
+  snapTask := g.snapTask.trans hu.snapTask
+  snapCalc := g.snapCalc.trans hu.snapCalc
+  waitSelect := g.waitSelect.trans hu.waitSelect
+  bad := fun x h => g.bad x (hu.bad x h)
+  ign := fun x h => g.ign x (hu.ign x h)
+  pendTask := fun x h => g.pendTask x (hu.pendTask x h)
+  pendCalc := fun x h => g.pendCalc x (hu.pendCalc x h)
+  dynTask := fun x h => g.dynTask x (hu.dynTask x h)
+  dynCalc := fun x h => g.dynCalc x (hu.dynCalc x h)
+  newTask := fun x h => by
+    rcases g.newTask x h with h' | h'
+    · rcases hu.newTask x h' with h'' | h''
+      · exact Or.inl h''
+      · exact Or.inr (g.pendTask x h'')
+    · exact Or.inr h'
+  newCalc := fun x h => by
+    rcases g.newCalc x h with h' | h'
+    · rcases hu.newCalc x h' with h'' | h''
+      · exact Or.inl h''
+      · exact Or.inr (g.pendCalc x h'')
+    · exact Or.inr h'
+  wr := fun d hd => by
+    rcases hu.wr d hd with h | ⟨e, h1, h2⟩
+    · exact Or.inl (g.waitRun ▸ h)
+    · exact Or.inr ⟨e, fun x => g.bad _ (h1 x), fun x => g.ign _ (h2 x)⟩
+  wr' := fun d hd => hu.wr' d (g.waitRun ▸ hd)
+  wc := fun d hd => by
+    rcases hu.wc d hd with h | ⟨e, h1, h2⟩
+    · exact Or.inl (g.waitRunCalc ▸ h)
+    · exact Or.inr ⟨e, fun x => g.bad _ (h1 x), fun x => g.ign _ (h2 x)⟩
+  wc' := fun d hd => hu.wc' d (g.waitRunCalc ▸ hd)
+  same := fun h => by rw [hs h]; exact hu.same h
+
+theorem wokenF_same {inp : RunInput} {s : Sys} {pst : RS} {p : Name} {w : Node} (h : p ∉ w.waitRunCalc) :
+    wokenF inp s pst p w = wokenNode inp pst p w := by
+  unfold wokenF; rw [if_neg h]
+
+theorem wokenF_grow (inp : RunInput) (s : Sys) (pst : RS) (p : Name) (w : Node) :
+    Grow (wokenNode inp pst p w) (wokenF inp s pst p w) := by
+  unfold wokenF; split
+  · exact deliverF_grow _ _ _ _ _
+  · exact Grow.refl _
+
+/-- what `_update_waiting` does to one waiting node, the delivery of a failed calc task's values included -/
+theorem wokenF_upd (inp : RunInput) (s : Sys) (pst : RS) (p : Name) (w : Node) :
+    Upd pst p w (wokenF inp s pst p w) :=
+  (wokenNode_upd inp pst p w).grow (wokenF_grow inp s pst p w) (fun h => wokenF_same h)
+
+/-! ### inputs without the delivery of a failed calc task's values
+
+`NoFailDeliver inp`: no calc task that fails during its execution has returned dependency values before the failing
+action (`calcResFail` is empty everywhere).  On such inputs `deliverF` is the identity, so `_node_add_wait_run` /
+`_update_waiting` deliver from executed / up-to-date calc tasks only.  Property developments whose *statements* speak
+about "what executed / up-to-date calc_deps delivered" (denotations, trace monitors) carry this as an explicit scope
+hypothesis (a type-class argument, so that it threads through their lemma chains); C01, C02, C09's dependency
+invariant and C12 do not need it. -/
+
+class NoFailDeliver (inp : RunInput) : Prop where
+  nil : ∀ p, inp.calcResFail p = {}
+
+theorem addDeps_empty (nd : Node) : nd.addDeps {} = nd := by
+  cases nd
+  simp [Node.addDeps, newTaskDeps, newCalcDeps, implicitNew, dedup]
+
+theorem deliverF_id {inp : RunInput} [h : NoFailDeliver inp] (ex : Bool) (pst : RS) (p : Name) (nd : Node) :
+    deliverF inp ex pst p nd = nd := by
+  unfold deliverF; split
+  · rw [h.nil p]; exact addDeps_empty nd
+  · rfl
+
+theorem wokenF_eq {inp : RunInput} [NoFailDeliver inp] (s : Sys) (pst : RS) (p : Name) (w : Node) :
+    wokenF inp s pst p w = wokenNode inp pst p w := by
+  unfold wokenF; split
+  · exact deliverF_id _ _ _ _
+  · rfl
+
+/-- `wakeOne` as it reads without `deliverF` -/
+theorem wakeOne_eq {inp : RunInput} [NoFailDeliver inp] (s : Sys) (pst : RS) (p w : Name) (nd : Node) :
+    wakeOne inp s pst p w nd =
+      if wokenReady p nd ∧ w ∈ s.waiting then
+        { setNode s w (wokenNode inp pst p nd) with ready := s.ready ++ [w], waiting := s.waiting.filter (· ≠ w) }
+      else setNode s w (wokenNode inp pst p nd) := by
+  unfold wakeOne; rw [wokenF_eq]
+
+/-- `absorbDone` as it reads without `deliverF` -/
+theorem absorbDone_cons_eq {inp : RunInput} [NoFailDeliver inp] (s : Sys) (isCalc : Bool) (d : Name) (ds : List Name)
+    (nd : Node) :
+    absorbDone inp s isCalc (d :: ds) nd =
+      if unfinished s d then absorbDone inp s isCalc ds nd
+      else absorbDone inp s isCalc ds
+        (if isCalc then deliver inp (stOf s d) d (parentStatus (stOf s d) d nd) else parentStatus (stOf s d) d nd) := by
+  simp only [absorbDone, deliverF_id]
 
 theorem NodeOK.upd {inp : RunInput} {s s' : Sys} {n : Name} {a b : Node} {pst : RS} {p : Name}
     (hok : NodeOK inp s n a) (hu : Upd pst p a b) (hst : Stable s s') (hp : stOf s' p = pst)
